@@ -88,36 +88,11 @@ def _jkey_graph(g):
 
 
 def _classes(items):
-    """which known-divergence constructs does the graph contain: 'tuple' (non-task non-key tuple with a key reference /
-    call; dict values are traversed: since ca6daad they are converted and substituted like list elements)"""
-    keyset = {_jkey(k) for k, _ in items}
-    found = set()
-
-    def go(j):
-        if j is None or isinstance(j, (int, str)):
-            return
-        if "t" in j:
-            xs = j["t"]
-            if xs and isinstance(xs[0], dict) and ("fn" in xs[0] or "q" in xs[0]):
-                for a in xs[1:]:
-                    go(a)
-            elif _jkey(j) not in keyset:
-                if any(has_ref_or_call(x, keyset) for x in xs):
-                    found.add("tuple")
-        elif "l" in j:
-            for x in j["l"]:
-                go(x)
-        elif "d" in j:
-            for _, v in j["d"]:
-                go(v)
-        elif "q" in j:
-            pass
-    for _, v in items:
-        go(v)
-    return found
+    """known-divergence constructs of the graph: none is left (dict values are converted and substituted since ca6daad,
+    non-task tuples are literals for the conversion too since 83e63e1)"""
+    return set()
 
 
-SIG_VALUE = "{op}:value-changed:hidden-reference-in-non-task-tuple"
 
 
 def _has_dict(o):
@@ -135,7 +110,6 @@ def _check_graph(ctx, op, items, dsk, keys, out, deps, want, classes, deps_exact
     value really depends on a reference hidden in a non-task tuple; a dependency-map mismatch is attributed to the
     dict divergence only if the mismatching entry's task holds a dict."""
     from dask.core import get_dependencies
-    from props._graph_terms import ref_eval
     if not protected:
         idx = [i for i, k in enumerate(keys) if k in out]
         keys = [keys[i] for i in idx]
@@ -146,15 +120,7 @@ def _check_graph(ctx, op, items, dsk, keys, out, deps, want, classes, deps_exact
         return
     got = _vals(out, keys)
     if got != want:
-        sig = None
-        if "tuple" in classes:
-            try:
-                bad = [k for k, g, w in zip(keys, got, want) if g != w]
-                if all(to_sexp(ref_eval(dsk, k, True, True)) != to_sexp(ref_eval(dsk, k, True, False)) for k in bad):
-                    sig = SIG_VALUE.format(op=op)
-            except Exception:
-                sig = None
-        ctx.fail(f"{op}: value of a requested key changed", sig=sig, observed=got, expected=want)
+        ctx.fail(f"{op}: value of a requested key changed", observed=got, expected=want)
     if deps is not None:
         bad = None
         for k in out:
